@@ -180,3 +180,6 @@ def check(prog: Program, rep):
     repetition_caps(prog, RuleProxy(rep, "C09.R6"), "C04.R5")
     rep.rule("C09.R7", "demands entering the width computation (per edge / per condensation edge / per SCC)", floor=4)
     width_demands(prog, rep, "C09.R7")
+    rep.rule("C09.R8", "the safety optimisations both cover searches run under (fixing to 1 / >= m / 0, protection sets) conform to the frozen table (C05.R4)", floor=10)
+    from rules.common import RuleProxy
+    conformance(prog, RuleProxy(rep, "C09.R8"), "C05.R4", "C05")
